@@ -56,7 +56,27 @@ const SPECIAL_KEYS: &[&str] = &["", "1", "1.5", "true", "null", "~", "-", "a b",
 fn doc(r: &mut Rng, cfg: &GenCfg, table: bool) -> (V, bool, bool) {
 	let mut special = false;
 	let mut empty = false;
-	let v = if r.chance(1, 10) {
+	let v = if r.chance(1, 8) {
+		// Collections with 16..40 members (array 16 / map 16 headers in MessagePack), mostly
+		// of values that encode to a single byte.
+		let n = r.range(16, 40);
+		let small = |r: &mut Rng| -> V {
+			match r.below(8) {
+				0 => V::Bool(r.chance(1, 2)),
+				1 if cfg.null => V::Null,
+				2 => V::S(String::new()),
+				3 => V::A(vec![]),
+				4 => V::M(vec![]),
+				5 => V::S(gen::gen_string(r, cfg)),
+				_ => V::I(r.range(0, 159) as i64 - 32),
+			}
+		};
+		if table || r.chance(1, 3) {
+			V::M((0..n).map(|i| (V::S(format!("k{i}")), small(r))).collect())
+		} else {
+			V::A((0..n).map(|_| small(r)).collect())
+		}
+	} else if r.chance(1, 10) {
 		empty = true;
 		if table || r.chance(1, 2) {
 			V::M(vec![])
